@@ -266,6 +266,124 @@ def vec_get(shape, vec, what, ci, fi=None):
     return vec[names.index(key)]
 
 
+# ------------------------------------------------------------------ histories
+# generate_stats() on a tree that was already analysed and then edited must
+# give what a fresh tree in the same state gives (differential oracle: the
+# state reached through a history vs. the same state reached directly).
+
+def hist_ops(nfiles):
+    ops = []
+    u16 = ('\n'.join(hunk_lines('DDI')) + '\n').encode('utf-16-le')
+    for fi in range(nfiles):
+        for st in (PRESTATS[1], PRESTATS[2],
+                   {'insertions': 40, 'deletions': 2, 'lines changed': 42,
+                    'custom': 'k'}):
+            ops.append(('file-stats', fi, st))
+        ops.append(('file-stats-del', fi, None))
+        for enc in ('utf-16-le', 'utf-8', 'latin-1'):
+            ops.append(('diff-encoding', fi, enc))
+        for le in ('unix', 'dos'):
+            ops.append(('diff-le', fi, le))
+        for t in ('binary', 'text'):
+            ops.append(('diff-type', fi, t))
+        ops.append(('diff-replace', fi, ('\n'.join(hunk_lines('III')) +
+                                         '\n').encode('ascii')))
+        ops.append(('diff-replace', fi, u16))
+        ops.append(('diff-replace', fi, b'@@ -1,3 +1,3 @@\n-a\n'))
+        ops.append(('diff-same-bytes-new-object', fi, None))
+        ops.append(('meta-other', fi, None))
+    ops.append(('change-stats', 0, PRESTATS[2]))
+    ops.append(('top-stats', 0, PRESTATS[2]))
+    ops.append(('change-stats-del', 0, None))
+    ops.append(('add-file', 0, None))
+    ops.append(('pop-file', 0, None))
+    ops.append(('generate', 0, None))
+    ops.append(('generate-change', 0, None))
+    ops.append(('generate-file', 0, None))
+    return ops
+
+
+def apply_hist_op(d, op):
+    name, fi, arg = op
+    ch = d.changes[0]
+    f = ch.files[fi] if fi < len(ch.files) else None
+    if name == 'file-stats' and f is not None:
+        f.meta['stats'] = copy.deepcopy(arg)
+    elif name == 'file-stats-del' and f is not None:
+        f.meta.pop('stats', None)
+    elif name == 'diff-encoding' and f is not None:
+        f.diff_encoding = arg
+    elif name == 'diff-le' and f is not None:
+        f.diff_line_endings = arg
+    elif name == 'diff-type' and f is not None:
+        f.diff_type = arg
+    elif name == 'diff-replace' and f is not None:
+        f.diff = bytes(bytearray(arg))
+    elif name == 'diff-same-bytes-new-object' and f is not None:
+        if f.diff is not None:
+            f.diff = bytes(bytearray(f.diff))
+    elif name == 'meta-other' and f is not None:
+        f.meta['touched'] = 'yes'
+    elif name == 'change-stats':
+        ch.meta['stats'] = copy.deepcopy(arg)
+    elif name == 'change-stats-del':
+        ch.meta.pop('stats', None)
+    elif name == 'top-stats':
+        d.meta['stats'] = copy.deepcopy(arg)
+    elif name == 'add-file':
+        ch.add_file(meta={'path': 'new'},
+                    diff=('\n'.join(hunk_lines('DI')) + '\n').encode())
+    elif name == 'pop-file':
+        if len(ch.files) > 1:
+            ch.files.pop()
+    elif name == 'generate':
+        d.generate_stats()
+    elif name == 'generate-change':
+        ch.generate_stats()
+    elif name == 'generate-file' and f is not None:
+        f.generate_stats()
+
+
+def check_history(shape, vec, ops):
+    from mc.domsnap import tree_from_snap
+    d, exp_files = build(shape, vec)
+    try:
+        d.generate_stats()
+        for op in ops:
+            apply_hist_op(d, op)
+        state = snap(d)
+        fresh = tree_from_snap(state)
+        if freeze(snap(fresh)) != freeze(state):
+            return [('harness:tree-from-snap', 'rebuild differs')]
+        d.generate_stats()
+        fresh.generate_stats()
+    except Exception as e:
+        from mc.observe import site_of
+        return [('history-raised:%s:%s' % (type(e).__name__, site_of(e)),
+                 repr(e))]
+    if freeze(snap(d)) != freeze(snap(fresh)):
+        a, b = snap(d), snap(fresh)
+        where = 'top'
+        if freeze(a['changes']) != freeze(b['changes']):
+            where = 'change'
+            for x, y in zip(a['changes'][0]['files'],
+                            b['changes'][0]['files']):
+                if freeze(x) != freeze(y):
+                    where = 'file'
+        return [('stale-after-history:%s:%s' % (where, ops[-1][0]),
+                 'after generate_stats(), %r, generate_stats() the tree '
+                 'differs from a fresh tree in the same state that was '
+                 'analysed once\n history tree %s\n fresh tree   %s'
+                 % ([o[:2] for o in ops],
+                    _short(a['changes'][0]), _short(b['changes'][0])))]
+    return []
+
+
+def _short(x):
+    r = repr(x)
+    return r if len(r) < 600 else r[:600] + '...'
+
+
 def plan(tier):
     shapes = SHAPES_Q if tier == 'quick' else SHAPES_T
     k = 2 if tier == 'quick' else 3
@@ -282,6 +400,11 @@ def plan(tier):
             units.append((si, combos[i:i + step]))
     # full product for the single-file tree: variant x render x kind x pre
     units.append(('single',))
+    # histories: generate, edit, (edit,) generate vs fresh tree
+    nops = len(hist_ops(2))
+    for base in range(3):
+        for a in range(nops):
+            units.append(('hist', base, a))
     return {
         'units': units,
         'shapes': shapes,
@@ -297,9 +420,14 @@ def plan(tier):
                 'top level; every choice vector with <= %d non-default '
                 'slots, plus the full product for the one-file tree. '
                 'Non-trivial: >= 2 files with different variants, or a '
-                'multi-byte encoding.' % (shapes, len(VARIANTS), len(RENDER),
-                                          k),
-        'bound': 'k=%d deviations per tree' % k,
+                'multi-byte encoding. Histories: generate_stats(), then every '
+                'sequence of 1-2 (thorough 3) edits from %d operations (stats '
+                'overwritten / deleted, diff_encoding / line_endings / type '
+                'changed, diff replaced, files added / removed, partial '
+                'generate calls), then generate_stats(): the tree must equal '
+                'a fresh tree rebuilt in the same state and analysed once.'
+                % (shapes, len(VARIANTS), len(RENDER), k, len(hist_ops(2))),
+        'bound': 'k=%d deviations per tree; histories of <= %d edits between two generate_stats() calls' % (k, 2 if tier == 'quick' else 3),
         'exhaustive': True,
         'assumptions': ['declared line endings are truthful (content uses '
                         'the declared kind)'],
@@ -323,6 +451,38 @@ def run_unit(unit, tier):
                                      'vec': list(vec)})
         acc.outcome('ok' if not viols else 'violation')
 
+    if unit[0] == 'hist':
+        _, base, a = unit
+        shape = (2,)
+        doms, names = slots_for(shape)
+        vec = [0] * len(doms)
+        if base == 1:      # second file: UTF-16-LE bytes declared as nothing
+            vec[names.index(('variant', 0, 1))] = 5
+            vec[names.index(('fpre', 0, 1))] = 1
+        elif base == 2:    # first file binary with pre-existing counts
+            vec[names.index(('kind', 0, 0))] = 2
+            vec[names.index(('fpre', 0, 0))] = 2
+            vec[names.index(('cpre', 0))] = 1
+        ops = hist_ops(2)
+        seqs = [(ops[a],)] + [(ops[a], o2) for o2 in ops]
+        if tier == 'thorough':
+            seqs += [(ops[a], o2, o3) for o2 in ops[::2] for o3 in ops[::3]]
+        for seq in seqs:
+            viols = check_history(shape, vec, list(seq))
+            acc.evals += 1
+            acc.states += 1
+            acc.transitions += 2 + len(seq)
+            acc.validated += 1
+            acc.nontrivial += 1
+            for key, msg in viols:
+                acc.violation(key, msg, {'kind': 'hist', 'base': base,
+                                         'vec': list(vec),
+                                         'ops': to_jsonable(
+                                             [list(o) for o in seq])})
+            acc.outcome('ok' if not viols else 'violation')
+        acc.sample({'history': ['generate_stats'] +
+                    [list(o[:2]) for o in seqs[-1]] + ['generate_stats']}, 1)
+        return acc
     if unit[0] == 'single':
         shape = (1,)
         for vi in range(len(VARIANTS)):
@@ -352,6 +512,10 @@ def run_unit(unit, tier):
 
 
 def replay(payload):
+    if payload.get('kind') == 'hist':
+        ops = [tuple(o) for o in from_jsonable(payload['ops'])]
+        viols = check_history((2,), payload['vec'], ops)
+        return [{'key': k, 'msg': m} for k, m in viols]
     if payload.get('kind') != 'tree':
         return []
     viols = check_tree(tuple(payload['shape']), payload['vec'])
